@@ -1,6 +1,7 @@
 /- Driver handlers for the search and plugin properties (C11, C12, C13, C15). -/
 import ChessVerif.Drv.Iter
 import ChessVerif.Model.Bot
+import ChessVerif.Model.SearchDefs
 import ChessVerif.Model.Book
 import ChessVerif.Spec.Bot
 
@@ -31,6 +32,20 @@ def handleSearch : List String → Ans
          | some t => t
          | none => showResult (Engine.search b (buildTable hist) k prev), "-")
       | _, _, _ => bad
+  | _ => bad
+
+/-- `searchfp <pos64> hist=.. k=..`: did the first deepening pass finish before the limit?  The model
+side evaluates the very definition the C11/C12 theorems are stated with (`firstPassFinished`); the
+implementation side is what the harness observed (a completed pass was recorded, or the timeout
+never reported expiry). -/
+def handleSearchFp : List String → Ans
+  | p :: rest => withPos p fun b =>
+      match (kv "k=" rest).bind String.toNat?, parseHist ((kv "hist=" rest).getD "") with
+      | some k, some hist =>
+        (match genTrap b BB.full with
+         | some t => t
+         | none => toString (Proofs.Search.firstPassFinished b (buildTable hist) k), "-")
+      | _, _ => bad
   | _ => bad
 
 def handleSearchChk : List String → Ans
